@@ -808,6 +808,11 @@ func (m *Manager) transitionTasks(envId uid.ID, tasks Tasks, src string, event s
 		return err
 	}
 
+	if len(receivers) == 0 {
+		// nothing to command: the transition trivially succeeds
+		return nil
+	}
+
 	args := make(controlcommands.PropertyMapsMap)
 
 	// If we're pushing some arg values to all targets...
